@@ -49,7 +49,7 @@ class Pipe:
         self.total_read = 0
 
     def pending(self):
-        return len(self.rx) + sum(len(d) for _s, d in self.inflight if d is not None)
+        return len(self.rx) + sum(len(d) for _s, d in self.inflight if isinstance(d, bytes))
 
 
 class FakeSocket:
@@ -212,8 +212,9 @@ class FakeSocket:
             raise BlockingIOError(errno.EAGAIN, "Resource temporarily unavailable")
         peer = self.peer
         if peer.state == "closed" or peer.rd_shut:
-            # data for a closed socket: the segment is accepted here and answered with RST
-            self.reset = True
+            # data for a closed socket: the segment is accepted here and answered with RST, which
+            # travels back behind whatever the peer had sent before it closed
+            self._rst_behind_inflight()
             net.count("rst_by_data_to_closed_peer")
             net.ev("send", self.sid, n, n, "to-closed")
             self.out.total_accepted += n
@@ -342,6 +343,14 @@ class FakeSocket:
 
     def detach(self):
         return self.fileno()
+
+    def _rst_behind_inflight(self):
+        """a RST for this socket is queued behind the data still in flight towards it"""
+        p = self.inp
+        if p is None or not p.inflight:
+            self.reset = True
+            return
+        p.inflight.append([p.inflight[-1][0], "RST"])
 
     def reset_by_peer(self):
         self.reset = True
@@ -482,10 +491,13 @@ class SimNet:
                     if d is None:
                         p.fin_ready = True
                         moved += 1
+                    elif d == "RST":
+                        rcv.reset = True
+                        moved += 1
                     elif rcv.state == "closed" or rcv.rd_shut:
-                        # data arriving for a closed socket -> RST back
+                        # data arriving for a closed socket -> RST back, behind what is in flight
                         if snd.state == "connected":
-                            snd.reset = True
+                            snd._rst_behind_inflight()
                             self.count("rst_by_data_to_closed_peer")
                     else:
                         p.rx.extend(d)
